@@ -141,9 +141,11 @@ theorem bestPairGo_spec (s1 s2 : Bytes) (l : List (Matchable × Matchable)) (i :
             subst this
             exact fun h => hcond ((beats_iff m1 m2 b1 b2).2 h)
 
-theorem matchTo_adapter {a : Matchable} {i : Nat} {s : Bytes} {m : AnyMatch} (h : a.matchTo i s = some m) :
+/-- a match names the list entry it came from — for single and linked adapters (an index object names one of its members) -/
+theorem matchTo_adapter {a : Matchable} {i : Nat} {s : Bytes} {m : AnyMatch} (hni : a.isIndexed = false) (h : a.matchTo i s = some m) :
     m.adapter = i := by
   cases a with
+  | indexed ix ids => simp [Matchable.isIndexed] at hni
   | single ad =>
     simp only [Matchable.matchTo, Option.map_eq_some_iff] at h
     obtain ⟨x, -, rfl⟩ := h
